@@ -470,6 +470,8 @@ def operand_left(toks: list[Tok], op: int, lo: int, multiplicative_chain: bool =
     j = op - 1
     while j > lo:
         t = toks[j]
+        if t.kind == 'punct' and t.text == '}':
+            return j + 1      # a block ends a statement: the operand starts after it
         if t.kind == 'punct' and t.text in _CLOSE:
             j = match_open(toks, j) - 1
             continue
